@@ -2,6 +2,7 @@ package engine
 
 import (
 	"io"
+	"math"
 	"strconv"
 	"strings"
 )
@@ -14,9 +15,10 @@ func (f Float) number() {}
 // WriteTerm outputs the Float to an io.Writer.
 func (f Float) WriteTerm(w io.Writer, opts *WriteOptions, _ *Env) error {
 	ew := errWriter{w: w}
-	openClose := opts.left.name == atomMinus && opts.left.specifier.class() == operatorClassPrefix && f > 0
+	neg := math.Signbit(float64(f))
+	openClose := opts.left.name == atomMinus && opts.left.specifier.class() == operatorClassPrefix && !neg
 
-	if openClose || (f < 0 && opts.left != operator{}) {
+	if openClose || (opts.left != (operator{}) && (neg || letterDigit(opts.left.name))) {
 		_, _ = ew.Write([]byte(" "))
 	}
 
